@@ -494,7 +494,13 @@ func appendAltText(dst []byte, source []byte, parent *Inline) []byte {
 				dst = append(dst, ` alt="`...)
 				hasAttr = true
 			}
-			dst = append(dst, curr.Text(source)...)
+			dst = escapeHTML(dst, spanSlice(source, curr.Span()))
+		case CharacterReferenceKind:
+			if !hasAttr {
+				dst = append(dst, ` alt="`...)
+				hasAttr = true
+			}
+			dst = escapeHTML(dst, []byte(curr.Text(source)))
 		case IndentKind, SoftLineBreakKind, HardLineBreakKind:
 			if !hasAttr {
 				dst = append(dst, ` alt="`...)
@@ -510,7 +516,7 @@ func appendAltText(dst []byte, source []byte, parent *Inline) []byte {
 		}
 	}
 	if !hasAttr {
-		dst = append(dst, `alt="`...)
+		dst = append(dst, ` alt="`...)
 	}
 	dst = append(dst, `"`...)
 	return dst
